@@ -665,10 +665,12 @@ where
             2 => SqliteValue::Real(Real(f64::read_from(reader)?)),
             3 => {
                 let len = reader.read_u32()? as usize;
+                let bytes: Vec<u8> = reader.read_vec(len)?;
 
-                SqliteValue::Text(unsafe {
-                    CompactString::from_utf8_unchecked(reader.read_vec(len)?)
-                })
+                // this comes from the network: never trust it to be valid UTF-8
+                SqliteValue::Text(CompactString::from_utf8(bytes).map_err(|e| {
+                    speedy::Error::custom(format!("invalid UTF-8 in text value: {e}"))
+                })?)
             }
             4 => SqliteValue::Blob(Readable::read_from(reader)?),
             _ => return Err(speedy::Error::custom("unknown SqliteValue variant").into()),
